@@ -6,10 +6,11 @@ from harness.gen import sobol as gen_sobol
 from harness.pyx import drift
 
 ID = "C20"
-LEAN_TARGETS = ["ChmpyVerif.Props.C20"]
+LEAN_TARGETS = ["ChmpyVerif.Props.C20", "ChmpyVerif.Props.C20Strat"]
 T = "ChmpyVerif.Props.C20."
 THEOREMS = [T + n for n in ("buildV_prefix", "batch_eq_single", "sobol_in_unit", "table_premise", "dirnum_lowbit",
-                            "front_end_dispatch", "kgf_in_unit", "kgf_batch_eq_single")]
+                            "front_end_dispatch", "kgf_in_unit", "kgf_batch_eq_single",
+                            "xSeq_second_half", "stratified_of_triangular", "stratified_onto", "sobol_coordinate_stratified")]
 TRUSTED = [
     "translator harness/gen/sobol.py (rows 0..1001 of _sobol_parameters.npz -> Gen/Sobol*.lean)",
     "hand model Model/Sobol.lean of _sobol.pyx on naturals mod 2^32 (the two L<=s / else branches merged into one incremental rule; "
@@ -25,10 +26,12 @@ MANIFEST = {
              "numbers built for a longer sequence extend those for a shorter one, hence batch = single point by point; every coordinate numerator "
              "is < 2^32 (coordinates in [0,1)); every table row used for D <= 1000 satisfies the Joe-Kuo premise (m_i odd, < 2^i; kernel-checked "
              "over the whole table) which gives each direction number its lowest set bit at 32-i; the front end dispatches to single/batch with "
-             "seeds [seed, seed+d1-1]. The one-dimensional stratification and the (0,m,2)-net property are NOT yet proved in Lean from the premise; "
-             "they are enumerated completely on the real code in the thorough tier (bounded domain of the property)."),
+             "seeds [seed, seed+d1-1]. ONE-DIMENSIONAL STRATIFICATION IS PROVED: for any triangular direction numbers and every k, the first 2^k points "
+             "fall into pairwise different sub-intervals of width 2^-k and hit every one of them (from the ruler structure of the index sequence and "
+             "xor/bit lemmas), instantiated for every tabulated coordinate and k <= 12. The (0,m,2)-net property of coordinate pairs is NOT proved in "
+             "Lean; it is enumerated completely on the real code in the thorough tier (bounded domain of the property)."),
     "note": ("Trusted: Lean kernel; .npz translator; hand model (branch merge, exact L); compiled extension = its .pyx (drift guard); Korobov floats. "
-             "Partial: stratification/net are checked by complete enumeration on the implementation, not by a theorem."),
+             "Partial: the two-dimensional net property is checked by complete enumeration on the implementation, not by a theorem."),
     "technique": "Lean 4 proof (list/bit lemmas + decide +kernel over the regenerated table) + exact integer correspondence + complete enumeration oracle",
 }
 
